@@ -251,6 +251,50 @@ where
     }
 }
 
+/// Verification hooks (raw state access); only built with the `verif` feature.
+#[cfg(feature = "verif")]
+#[doc(hidden)]
+impl<T> CMSHeap<T>
+where
+    T: Clone + Eq + Hash + Ord,
+{
+    /// Build a heap from raw parts: exact-counter map entries and tree entries.
+    pub fn verif_from_parts(
+        k: usize,
+        cms: CountMinSketch<T>,
+        map: Vec<(T, usize)>,
+        tree: Vec<(T, usize)>,
+    ) -> Self {
+        let mut res = Self::new(k, cms);
+        for (obj, n) in map {
+            res.obj2count.insert(Rc::new(obj), n);
+        }
+        for (obj, n) in tree {
+            res.tree.insert(TreeEntry {
+                obj: Rc::new(obj),
+                n,
+            });
+        }
+        res
+    }
+
+    /// Raw parts: map entries and tree entries (tree in iteration order).
+    pub fn verif_parts(&self) -> (Vec<(T, usize)>, Vec<(T, usize)>) {
+        (
+            self.obj2count
+                .iter()
+                .map(|(k, v)| ((**k).clone(), *v))
+                .collect(),
+            self.tree.iter().map(|e| ((*e.obj).clone(), e.n)).collect(),
+        )
+    }
+
+    /// The underlying sketch.
+    pub fn verif_cms_mut(&mut self) -> &mut CountMinSketch<T> {
+        &mut self.cms
+    }
+}
+
 #[cfg(test)]
 mod tests {
     use super::CMSHeap;
